@@ -37,6 +37,25 @@ def check_modes_failures(ctx):
             sch, w = None, None
         jobs.append(dict(ocfg=c, variant=k, scheduler=sch, workers=w, exc=EXCS[k % len(EXCS)]))
     traces = O.record(jobs)
+    # every exception class on every execution path (sequential loop, dask synchronous, dask threads), on
+    # configurations whose fault is known to fire
+    firing = {False: [], True: []}
+    for k, t in enumerate(traces):
+        if t["events"][-1]["e"] == "failed":
+            firing[bool(t["ocfg"]["dask"])].append(t["ocfg"])
+        else:
+            # the sampled fault vector is not an element of the space: move it onto a run that was executed
+            effs = [e["eff"] for e in t["events"] if e["e"] == "run" and 7 not in e.get("eff", [7])]
+            if effs:
+                firing[bool(t["ocfg"]["dask"])].append(dict(t["ocfg"], fault=effs[k % len(effs)]))
+    jobs2 = []
+    for n, exc in enumerate(EXCS):
+        for path, (dask_, sch, w) in enumerate(((False, None, None), (True, "synchronous", None), (True, "threads", 2))):
+            pool = firing[dask_]
+            if pool:
+                jobs2.append(dict(ocfg=pool[(3 * n + path) % len(pool)], variant=1000 + 10 * n + path, scheduler=sch,
+                                  workers=w, exc=exc))
+    traces += O.record(jobs2)
     ctx.cov["replayed_cases"] += len(traces)
     nfail = sum(1 for t in traces if t["events"][-1]["e"] == "failed")
     ctx.notes["observation_faults_surfaced"] = nfail
